@@ -20,8 +20,9 @@ type inode struct {
 	bytes []byte
 	recs  []int // readable records (tokens) as of the last event emitted
 	// incremental gzip parse state
-	gzOff  int    // bytes[:gzOff] are complete members
-	gzText []byte // their decompressed content
+	gzOff      int    // bytes[:gzOff] are complete members (or members given up as torn, see died)
+	gzText     []byte // the decompressed content of the complete ones
+	memberOpen bool   // bytes beyond gzOff: an unterminated member
 }
 
 type openFile struct {
@@ -42,6 +43,7 @@ type fsModel struct {
 	cwd     string
 	// statistics
 	nFin, nFsync, nAppendRecs, nLinkEEXIST, nOpenEEXIST, nLink, nUnlink, nCreate, nOpenOld int
+	nTorn                                                                                  int
 	unknownFin                                                                             []string
 	finOrder                                                                               []int
 }
@@ -147,7 +149,20 @@ func (m *fsModel) changed(in *inode, rewritten bool) {
 	if rewritten {
 		in.gzOff, in.gzText = 0, nil
 	}
+	before := in.gzOff
 	nr := m.readable(in)
+	closed := in.gz && in.gzOff > before // a gzip member was terminated by this write (possibly an empty one)
+	defer func() {
+		if !in.gz {
+			return
+		}
+		if len(in.bytes) > in.gzOff && !in.memberOpen {
+			in.memberOpen = true
+			m.emit("Member", "i", in.id)
+		} else if len(in.bytes) == in.gzOff {
+			in.memberOpen = false
+		}
+	}()
 	k := 0
 	for k < len(in.recs) && k < len(nr) && in.recs[k] == nr[k] {
 		k++
@@ -156,6 +171,8 @@ func (m *fsModel) changed(in *inode, rewritten bool) {
 		if len(nr) > k {
 			m.emit("Append", "i", in.id, "recs", nr[k:])
 			m.nAppendRecs += len(nr) - k
+		} else if closed {
+			m.emit("Append", "i", in.id, "recs", []int{})
 		}
 	} else {
 		tail := nr[k:]
@@ -165,6 +182,21 @@ func (m *fsModel) changed(in *inode, rewritten bool) {
 		m.emit("Rewrite", "i", in.id, "k", k, "recs", tail)
 	}
 	in.recs = nr
+}
+
+// died: the traced process is gone.  Members it left unterminated stay torn for ever; what a later process appends
+// behind them is still parsed (from the end of the torn bytes) and reported as Append -- whether a reader can get to
+// it is the specification's business (FsAppend on a torn tail), not the harness's.
+func (m *fsModel) died() {
+	for _, in := range m.inodes {
+		if in.gz && len(in.bytes) > in.gzOff {
+			in.gzOff = len(in.bytes)
+			m.nTorn++
+		}
+		in.memberOpen = false
+	}
+	m.fds = map[int]*openFile{} // no descriptor survives the process, the files do
+	m.emit("Died")
 }
 
 // declare a file that exists before the tool starts
